@@ -238,10 +238,17 @@ class ContractableBOSS(BaseClassifier):
         return self
 
     def predict(self, X):
-        rng = check_random_state(self.random_state)
+        # ties are broken with a generator seeded per instance, so that the predicted
+        # label of an instance does not depend on the other instances in X
         return np.array(
             [
-                self.classes_[int(rng.choice(np.flatnonzero(prob == prob.max())))]
+                self.classes_[
+                    int(
+                        check_random_state(self.random_state).choice(
+                            np.flatnonzero(prob == prob.max())
+                        )
+                    )
+                ]
                 for prob in self.predict_proba(X)
             ]
         )
